@@ -7,6 +7,7 @@ str.split and float, the rows that duplicate the last edge carry the content of 
 cell, an error field belongs to the one coordinate whose name follows "error_".
 """
 import itertools
+from decimal import Decimal
 from fractions import Fraction
 
 from mc.ref import c06c12_ref as R
@@ -32,6 +33,94 @@ def close(a, b, hint=0.0, rel=REL):
 
 def frac(x):
     return Fraction(x)
+
+
+# ---- numbers of every real type -------------------------------------------------------------------------
+# A number argument of the statement (a target scale, a weight, a number of events) is "a number": the
+# docstrings say "if a number is given" (GroupScale), "a numeric other" (graph.scale). The plain
+# alphabets hold ints and floats; a *typed number* is the JSON-able pair [kind, text] of a number of
+# another real type (or of a magnitude JSON numbers would not keep), built anew for every execution.
+class IntSub(int):
+    """A subclass of int (what e.g. enum.IntEnum members or numpy-like wrappers are)."""
+    __slots__ = ()
+
+
+class FloatSub(float):
+    """A subclass of float."""
+    __slots__ = ()
+
+
+NUMBER_KINDS = ["int", "bool", "float", "IntSub", "FloatSub", "Fraction", "Decimal"]
+_BUILD = {
+    "int": int, "float": float, "IntSub": lambda t: IntSub(int(t)), "FloatSub": lambda t: FloatSub(float(t)),
+    "Fraction": Fraction, "Decimal": Decimal, "bool": lambda t: {"True": True, "False": False}[t],
+}
+
+
+def is_typed(t):
+    return isinstance(t, (list, tuple))
+
+
+def number(t):
+    """The number object of a plain (int / float / None) or typed ([kind, text]) number."""
+    if is_typed(t):
+        return _BUILD[t[0]](t[1])
+    return t
+
+
+def kind_of(t):
+    if is_typed(t):
+        return t[0]
+    return type(t).__name__
+
+
+def exact(t):
+    """The value of a plain or typed number as a Fraction."""
+    return Fraction(number(t))
+
+
+def is_real(x):
+    return isinstance(x, (int, float, Fraction, Decimal))
+
+
+def rclose(a, b, hint=0.0, rel=REL):
+    """close() for results of any real number type (bool, Fraction, Decimal, subclasses): the statement
+    speaks about values, so whatever real type the arithmetic of the operands gives is accepted."""
+    if not (is_real(a) and is_real(b)):
+        return False
+    try:
+        fa, fb = Fraction(a), Fraction(b)
+    except (ValueError, OverflowError, TypeError):
+        return False  # nan, infinity
+    if fa == fb:
+        return True
+    return abs(fa - fb) <= Fraction(rel) * max(abs(fa), abs(fb), Fraction(hint))
+
+
+# value texts per kind: the values 1, 2, -3, 1/2, 3/2, -7/4, 1/3 and 10**20 in every kind that can hold them
+_TYPED_ALL = [
+    ("bool", ["True"]),
+    ("IntSub", ["2", "-3", "100000000000000000000"]),
+    ("FloatSub", ["2.0", "-3.0", "0.5", "1.5", "-1.75"]),
+    ("Fraction", ["2", "-3", "1/2", "3/2", "-7/4", "1/3"]),
+    ("Decimal", ["2", "-3", "0.5", "1.5", "-1.75"]),
+    ("int", ["100000000000000000000"]),
+]
+_TYPED_QUICK = [
+    ("bool", ["True"]),
+    ("IntSub", ["2", "-3"]),
+    ("FloatSub", ["0.5", "-3.0"]),
+    ("Fraction", ["2", "3/2", "-7/4", "1/3"]),
+    ("Decimal", ["1.5", "-3"]),
+    ("int", ["100000000000000000000"]),
+]
+
+
+def typed_numbers(tier, decimal=False):
+    """Typed numbers of a tier, simplest first. Decimal only where asked for: Python does not mix
+    Decimal with float, and histograms hold float edges / contents / integrals."""
+    table = _TYPED_ALL if tier == "thorough" else _TYPED_QUICK
+    return [[kind, text] for kind, texts in table for text in texts if decimal or kind != "Decimal"]
 
 
 # ---- histogram specifications -------------------------------------------------------------------------
